@@ -34,7 +34,7 @@ func init() {
 		ID:      "C13",
 		Level:   "exploration",
 		Workers: 16,
-		Rule: fmt.Sprintf("complete matrix entry mode {create, subscribe, subscribe-or-create} x existing datatype {none, same type, other type, same type already subscribed by this client} x other client {absent, sequentially first, racing in parallel (2-5 clients)} x point of history {fresh, after operations, after a snapshot exists} x four types = %d cells, repeated with different seeds (operations before / after, number of racers). Expected outcome from the statement: create on a key that exists, subscribe on a missing key, any mode on a key of another type => the error handler receives an error, the stored data are unchanged (store diff empty, volatile timestamps ignored), no transition to SUBSCRIBED; every report of the state-change handler is truthful (it starts at the state the datatype was in, changes it, and the last one ends at the state the datatype is in); otherwise success: state SUBSCRIBED, the state-change handler reports -> SUBSCRIBED exactly once, the first readable state equals the replay of the log up to the response checkpoint; racing clients: (in half of the racing cells the racers arrive within 4 ms of each other instead of at the same moment) exactly one datatype document per (collection, key) and outcomes consistent with some serial order; in every second repetition of the non-racing cells the entering client's first request is aborted by the server (one database command of its handler fails): the abort must reach the error handler, must not make the datatype SUBSCRIBED, must change nothing stored when the failed command is a read, and the retry is judged like a first entry; in half of the repetitions of the single-entry cells a successful entry response is delivered a second time: same state, no second report of SUBSCRIBED; in a third of all cells, once everything has settled, one more subscriber enters the key (subscribe / subscribe-or-create at random): a REALTIME client of the SDK over real grpc and a real MQTT client whose broker connection was cut, and is refused from then on, after it had connected - subscribing its notification topic fails; SUBSCRIBED must be reported exactly once and the first readable state must equal the replay of the stored log (what the broker fault itself causes is counted: fault reached / entry not completed); ",
+		Rule: fmt.Sprintf("complete matrix entry mode {create, subscribe, subscribe-or-create} x existing datatype {none, same type, other type, same type already subscribed by this client} (documents: in a third of the cells made by the REST patch route instead of a client) x other client {absent, sequentially first, racing in parallel (2-5 clients)} x point of history {fresh, after operations, after a snapshot exists} x four types = %d cells, repeated with different seeds (operations before / after, number of racers). Expected outcome from the statement: create on a key that exists, subscribe on a missing key, any mode on a key of another type => the error handler receives an error, the stored data are unchanged (store diff empty, volatile timestamps ignored), no transition to SUBSCRIBED; every report of the state-change handler is truthful (it starts at the state the datatype was in, changes it, and the last one ends at the state the datatype is in); otherwise success: state SUBSCRIBED, the state-change handler reports -> SUBSCRIBED exactly once, the first readable state equals the replay of the log up to the response checkpoint; racing clients: (in half of the racing cells the racers arrive within 4 ms of each other instead of at the same moment) exactly one datatype document per (collection, key) and outcomes consistent with some serial order; in every second repetition of the non-racing cells the entering client's first request is aborted by the server (one database command of its handler fails): the abort must reach the error handler, must not make the datatype SUBSCRIBED, must change nothing stored when the failed command is a read, and the retry is judged like a first entry; in half of the repetitions of the single-entry cells a successful entry response is delivered a second time: same state, no second report of SUBSCRIBED; in a third of all cells, once everything has settled, one more subscriber enters the key (subscribe / subscribe-or-create at random): a REALTIME client of the SDK over real grpc and a real MQTT client whose broker connection was cut, and is refused from then on, after it had connected - subscribing its notification topic fails; SUBSCRIBED must be reported exactly once and the first readable state must equal the replay of the stored log (what the broker fault itself causes is counted: fault reached / entry not completed); ",
 			c13Cells()) +
 			"non-trivial = every cell; distinct = cell x repetition",
 		Assumptions: []string{
